@@ -81,6 +81,49 @@ PREDICATES = {
 }
 ALLPREDS = sorted(set(PREDICATES.values()))
 
+# operator classes, from the documentation of pysmt.operators
+CLASSES = {
+    "is_bool_op": {"FORALL", "EXISTS", "AND", "OR", "NOT", "IMPLIES", "IFF"},
+    "is_quantifier": {"FORALL", "EXISTS"},
+    "is_theory_relation": {"EQUALS", "LE", "LT", "BV_ULT", "BV_ULE", "BV_SLT", "BV_SLE", "STR_CONTAINS",
+                           "STR_PREFIXOF", "STR_SUFFIXOF"},
+    "is_ira_op": {"PLUS", "MINUS", "TIMES", "TOREAL", "DIV", "POW", "BV_TONATURAL"},
+    "is_bv_op": {"BV_NOT", "BV_AND", "BV_OR", "BV_XOR", "BV_CONCAT", "BV_EXTRACT", "BV_NEG", "BV_ADD", "BV_SUB",
+                 "BV_MUL", "BV_UDIV", "BV_UREM", "BV_LSHL", "BV_LSHR", "BV_ROL", "BV_ROR", "BV_ZEXT", "BV_SEXT",
+                 "BV_COMP", "BV_SDIV", "BV_SREM", "BV_ASHR"},
+    "is_array_op": {"ARRAY_SELECT", "ARRAY_STORE", "ARRAY_VALUE"},
+    "is_str_op": {"STR_LENGTH", "STR_CONCAT", "STR_INDEXOF", "STR_REPLACE", "STR_SUBSTR", "STR_CHARAT",
+                  "STR_TO_INT", "INT_TO_STR"},
+}
+CLASSES["is_theory_op"] = CLASSES["is_ira_op"] | CLASSES["is_bv_op"] | CLASSES["is_array_op"] | CLASSES["is_str_op"]
+
+
+def value_queries(key):
+    """[(method, args, kwargs, expected)] for the value/type-parameterised predicates of a node."""
+    op, params, ch = key
+    out = []
+    isc = op == "CONST"
+    ty, v = params if isc else (None, None)
+    probes = {BOOL: [True, False], INT: [0, 1, -1, 7], REAL: [Fraction(0), Fraction(1), Fraction(1, 2), 0, 1],
+              STRING: ["", "a", "0"]}
+    for t, meth in ((BOOL, "is_bool_constant"), (INT, "is_int_constant"), (REAL, "is_real_constant"),
+                    (STRING, "is_string_constant")):
+        out.append((meth, (), {}, isc and ty == t))
+        for q in probes[t] + ([v] if isc and ty == t else []):
+            out.append((meth, (q,), {}, isc and ty == t and v == q))
+    bvq = [0, 1, 3] + ([v] if isc and is_bv(ty) else [])
+    out.append(("is_bv_constant", (), {}, isc and is_bv(ty)))
+    for q in bvq:
+        out.append(("is_bv_constant", (q,), {}, isc and is_bv(ty) and v == q))
+        for w in (1, 4, 8) + ((ty[1],) if isc and is_bv(ty) else ()):
+            out.append(("is_bv_constant", (q, w), {}, isc and is_bv(ty) and v == q and ty[1] == w))
+            out.append(("is_bv_constant", (), {"width": w}, isc and is_bv(ty) and ty[1] == w))
+    out.append(("is_true", (), {}, isc and ty == BOOL and v is True))
+    out.append(("is_false", (), {}, isc and ty == BOOL and v is False))
+    out.append(("is_zero", (), {}, isc and ty in (INT, REAL) and v == 0))
+    out.append(("is_one", (), {}, isc and ty in (INT, REAL) and v == 1))
+    return out
+
 
 class Builder(object):
     """Builds a blueprint in env along a route decided by rnd."""
@@ -120,8 +163,13 @@ class Builder(object):
                 return m.Real((v.numerator * f, v.denominator * f))
             if k == 3 and v.denominator == 1:
                 return m.Real(int(v))
-            if k == 4 and v.denominator in (1, 2, 4, 8) and abs(v.numerator) < 2 ** 40:
-                return m.Real(float(v))
+            if k == 4:
+                try:
+                    fl = float(v)
+                    if Fraction(fl) == v:       # a float denotes exactly the rational it stores
+                        return m.Real(fl)
+                except OverflowError:
+                    pass
             return m.Real(Fraction(v.numerator, v.denominator))
         if is_bv(ty):
             w = ty[1]
@@ -223,7 +271,7 @@ class Builder(object):
 
 CFG = Cfg(max_depth=3, pow=True, quant_unbounded=True, nsyms=2, bv_widths=[1, 2, 4, 8, 33],
           ints=[0, 1, -1, 2, 7, 2 ** 70], reals=[Fraction(0), Fraction(1), Fraction(1, 2), Fraction(-3, 4), Fraction(5),
-                                                  Fraction(1, 3), Fraction(2 ** 70, 3)],
+                                                  Fraction(1, 3), Fraction(2 ** 70, 3), Fraction(0.1), Fraction(1e-9), Fraction(-2.7)],
           strings=["", "a", "ab", "0"], share=35)
 
 
@@ -239,8 +287,8 @@ class Machine(RuleBasedStateMachine):
         self.steps = 0
 
     # ---- helpers
-    def fail(self, kind, case, detail):
-        self.run.fail({"subcheck": "hashcons:" + kind}, case, detail)
+    def fail(self, kind, case, detail, **sig):
+        self.run.fail(dict({"subcheck": "hashcons:" + kind}, **sig), case, detail)
 
     def register(self, e, key, obj, how):
         """same key <=> same object, against everything created so far in env e."""
@@ -287,6 +335,34 @@ class Machine(RuleBasedStateMachine):
             for p in ALLPREDS:
                 if getattr(obj, p)() != (p == want):
                     self.fail("predicate", case, "%s() is %r on %s" % (p, getattr(obj, p)(), show(key)))
+            for p, ops in CLASSES.items():
+                if getattr(obj, p)() != (op in ops):
+                    self.fail("predicate", case, "%s() is %r on %s" % (p, getattr(obj, p)(), show(key)))
+            lit = (op == "SYMBOL" and params[1] == BOOL) or (op == "NOT" and ch[0][0] == "SYMBOL" and ch[0][1][1] == BOOL)
+            if obj.is_literal() != lit:
+                self.fail("predicate", case, "is_literal() is %r on %s" % (obj.is_literal(), show(key)))
+            if obj.is_term() != (not (op == "SYMBOL" and is_fun(params[1]))):
+                self.fail("predicate", case, "is_term() is %r on %s" % (obj.is_term(), show(key)))
+            if op == "SYMBOL":
+                for qt in (BOOL, INT, BV(4), params[1]):
+                    if not is_fun(qt) and obj.is_symbol(pys.to_ptype(env, qt)) != (qt == params[1]):
+                        self.fail("predicate", case, "is_symbol(%r) wrong on %s" % (qt, show(key)))
+            if op != "ARRAY_VALUE":      # typed queries on array values raise by documented design
+                for meth, a, kw, want in value_queries(key):
+                    try:
+                        got = getattr(obj, meth)(*a, **kw)
+                    except Exception as ex:
+                        got = "raised %s" % type(ex).__name__
+                    if got != want:
+                        self.fail("predicate", case, "%s(%s%s) is %r on %s" % (
+                            meth, ", ".join(map(repr, a)), "".join(", %s=%r" % kv for kv in kw.items()), got, show(key)),
+                            pred=meth, node=op if op != "CONST" else "CONST:" + B.tystr(params[0]).rstrip("0123456789"))
+            if op == "CONST" and is_bv(params[0]):
+                w, v = params[0][1], params[1]
+                if obj.bv_str() != format(v, "0%db" % w) or obj.bv_bin_str() != format(v, "0%db" % w) \
+                        or obj.bv_bin_str(reverse=True) != format(v, "0%db" % w)[::-1] or obj.bv_str("d") != str(v) \
+                        or int(obj.bv_str("x"), 16) != v or obj.bv2nat() != v:
+                    self.fail("constant-accessors", case, "bv_str / bv_bin_str / bv2nat wrong on %s" % show(key))
             if op == "CONST":
                 ty, v = params
                 if not obj.is_constant() or obj.constant_value() != v or pys.from_ptype(obj.constant_type()) != ty:
